@@ -163,8 +163,31 @@ static void c14_large(Case& cs) {
   cs.st.cls("large_chunk_MiB:" + std::to_string((int)MIB[szi]));
 }
 
+// volume in small chunks, as the exporter writes (2048-byte pieces): 9..20 MiB into one output, then a rotation and a little more
+// comp x target x chunk size (enumerated)
+static void c14_volume(Case& cs) {
+  Chooser& c = cs.c;
+  uint64_t cell = c.range(0, 7);                   // first choice = sharding dimension
+  int comp = 1 + (int)(cell & 1);
+  bool named = (cell >> 1) & 1;
+  size_t chunk = (cell >> 2) ? 16384 : 2048;
+  size_t total = (size_t)((cs.size >= 60 ? 20 : 9) * 1024 * 1024 + 12345);
+  std::vector<Step> plan;
+  uint64_t seed = cell * 7 + 1;
+  for (size_t done = 0; done < total; done += chunk) { Step s; s.rotate = false; s.ch = Chunk{chunk, 3, seed++}; plan.push_back(s); }
+  Step rot; rot.rotate = true; plan.push_back(rot);
+  Step post; post.rotate = false; post.ch = Chunk{2049, 1, 3}; plan.push_back(post);
+  std::string desc = std::string(comp == 1 ? "gzip" : "xz") + (named ? " name" : " fd") + ": " + std::to_string(total >> 20) + " MiB of mixed data in chunks of " + std::to_string(chunk) + " bytes, rotation, small chunk";
+  cs.sample = desc;
+  if (cs.replay) printf("%s\n", desc.c_str());
+  run_plan(cs, plan, comp, named, desc);
+  cs.nontrivial = true;
+  cs.st.cls("volume_in_chunks_of:" + std::to_string(chunk));
+}
+
 int main(int argc, char** argv) {
   Registry r;
+  r.add("c14_volume", c14_volume);
   r.add("c14_plan", c14_plan);
   r.add("c14_large", c14_large);
   return harness_main(argc, argv, r);
